@@ -12,7 +12,10 @@ PARTIAL = ("proved for every usage, table and text: the binding rule of formals 
 
 NAMES = ["M", "N1", "add", "cat", "str", "W"]
 FORMALS = ["a", "b", "x", "y1", "_z", "type", "input", "bit", "logic", "wire", "begin"]   # reserved words are legal names of formals
-ACTUALS = ["1", "p", "q+1", "(r,s)", "{t,u}", "[3:0]", "\"s,t\"", "f(g,h)", "", " ", "w x", "`K", "8'hff", "\"a\""]
+ACTUALS = ["1", "p", "q+1", "(r,s)", "{t,u}", "[3:0]", "\"s,t\"", "f(g,h)", "", " ", "w x", "`K", "8'hff", "\"a\"",
+           # groups nested in groups, every opener inside every other
+           "(x == {a, b})", "mem[{hi, lo}]", "{ {2{s}}, t }", "f({a,b}, [c:{d}])", "((a),(b))", "[{a},(b)]", "{(a),[b]}", "({[a]})",
+           "{\"x,}\", y}", "(\")\", 1)"]
 
 
 def gen_body(r, formals, known):
